@@ -20,7 +20,8 @@ LEVEL = "exploration"
 RULE = ("a case = (serializer with auto-proxy support, history of <= 16 steps from {register(obj k, id none|x|y|Pyro.Daemon|'', force, weak), "
         "unregister(obj k | id | unknown id | Pyro.Daemon), uriFor, proxyFor, call(id), registered, give(obj k) through a relay method, drop "
         "last reference + gc (a strongly registered object must stay reachable then)}; pool = 2 truthy + 2 falsy instances + 1 class; plus a fixed catalogue of histories). Non-trivial: the history contains unregister-by-id, force, or weak+gc, followed by a call or a give; "
-        "distinct = distinct case JSON")
+        "distinct = distinct case JSON. A third of the cases uses objects whose __getstate__ returns their live attribute dict; steps may also register / unregister "
+        "a pool object with ANOTHER daemon of the process (afterwards only this daemon's table, its refusal of the same object under the same id, and calls by id are judged for it)")
 ASSUMPTIONS = ["an object registered under several ids (forced) is never unregistered BY OBJECT (the statement leaves open which id goes); if its marked id is taken over by another object only calls by id are judged for it",
                "forced replacement of Pyro.Daemon itself is not generated ('silently' is ambiguous for an explicit force)",
                "unregistering something that is not registered may be a no-op or a DaemonError",
@@ -62,6 +63,14 @@ def _classes():
             return False        # an ordinary object may well be falsy (empty container-like objects are)
 
     @api.expose
+    class A2(A):
+        """hands out its live attribute dict as its state (a common __getstate__): serialising it by value must leave the object alone"""
+        def __getstate__(self):
+            return self.__dict__
+
+    A.livestate = A2
+
+    @api.expose
     class Relay(object):
         def give(self, k):
             o = POOL[k]
@@ -96,11 +105,13 @@ step = st.one_of(
     st.tuples(st.just("give_marshal"), st.sampled_from([0, 1, 2, 3, 4])),
     st.tuples(st.just("drop"), st.sampled_from([0, 1, 2, 3, 4])),
     st.tuples(st.just("daemon_ping")),
+    st.tuples(st.sampled_from(["foreign_register", "foreign_register", "foreign_unregister"]), st.sampled_from([0, 1, 2, 3])),
 ).map(list)
 
 
 def case_strategy():
-    return st.fixed_dictionaries({"ser": st.sampled_from(["serpent", "json", "msgpack"]), "steps": st.lists(step, min_size=1, max_size=16)})
+    return st.fixed_dictionaries({"ser": st.sampled_from(["serpent", "json", "msgpack"]), "steps": st.lists(step, min_size=1, max_size=16),
+                                  "livestate": st.integers(0, 2).map(lambda n: n == 0)})
 
 
 _live = {}
@@ -115,13 +126,18 @@ def _setup(servertype):
         A, B, Relay = _classes()
         srv = live.Served(servertype)
         srv.daemon.register(Relay(), "relay")
-        _live.update(served=srv, servertype=servertype, A=A, B=B)
+        import Pyro5.server
+        _live.update(served=srv, servertype=servertype, A=A, B=B, foreign=Pyro5.server.Daemon())     # (a second daemon of the process; never served)
     return _live
 
 
 def _teardown():
     if "served" in _live:
         _live["served"].stop()
+        try:
+            _live["foreign"].close()
+        except Exception:
+            pass
     _live.clear()
     POOL.clear()
 
@@ -139,6 +155,10 @@ def _outcome(fn):
                 return ("proxy", v.hit())
         except Exception as x:
             return ("proxy-broken", type(x).__name__)
+    if type(v) is dict:
+        # (an object whose state is its live attribute dict shows the marks a former registration left on it: stale marks are not
+        #  a different way of travelling - the statement asks for "by value")
+        v = {k: x for k, x in v.items() if k not in ("_pyroId", "_pyroDaemon")}
     return ("value", repr(v))
 
 
@@ -158,7 +178,7 @@ def run_case(case, servertype=None, keep=False):
         LABEL[0] += 1
         if k == 4:
             return make_class("cls-%d" % LABEL[0])
-        return (A if k % 2 == 0 else B)("obj%d-%d" % (k, LABEL[0]))
+        return ((A.livestate if case.get("livestate") else A) if k % 2 == 0 else B)("obj%d-%d" % (k, LABEL[0]))
     for k in range(5):
         POOL[k] = fresh(k)
     model = {}          # id -> pool index
@@ -183,6 +203,7 @@ def run_case(case, servertype=None, keep=False):
         return marked.get(k) if marked.get(k) in ids else ids[0]
 
     marked = {}         # pool index -> the id of its most recent registration (what the object's own marks say)
+    foreign = set()     # objects that another daemon has registered / unregistered meanwhile
     murky = set()       # objects registered under several ids whose MARKED id was taken over by another object: the statement
                         # does not say how such an object travels / which id uriFor gives: only calls by id are judged for them
 
@@ -191,10 +212,26 @@ def run_case(case, servertype=None, keep=False):
             op = s[0]
             label = "step %d %r" % (n, s)
             obj = res = got = None       # (a kept exception would keep its frames - and the pool objects in them - alive)
+            if op in ("foreign_register", "foreign_unregister"):
+                # the application registers the same object with ANOTHER daemon of the process as well (or takes it out there): the
+                # object's marks then speak about that daemon; this daemon's table, its refusals and calls by id are unaffected
+                k = s[1]
+                try:
+                    if op == "foreign_register":
+                        L["foreign"].register(POOL[k])
+                    else:
+                        L["foreign"].unregister(POOL[k])
+                except Exception:       # noqa
+                    pass
+                murky.add(k)
+                foreign.add(k)
+                continue
             if op == "register":
                 _, k, oid, force, wk = s
                 obj = POOL[k]
                 cur = holder(k)
+                if k in foreign and (force or cur is None or real_id(oid or "") != cur):
+                    continue        # only "the same object under the same id, unforced" is judged for an object another daemon has marked
                 if force and cur is not None and (oid is None or oid != cur) and (wk or any(weak.get(i) for i in ids_of(k)) or k == 4):
                     continue        # forced registration under a SECOND id is only generated for strongly registered instances
                 if force and oid == "Pyro.Daemon":
@@ -389,6 +426,12 @@ def run_case(case, servertype=None, keep=False):
                     model.pop(extra, None)
                 cur = holder(k)
                 murky.discard(k)
+                if k in foreign:
+                    foreign.discard(k)
+                    try:
+                        L["foreign"].unregister(POOL[k])      # (the other daemon would keep the object alive)
+                    except Exception:       # noqa
+                        pass
                 marked.pop(k, None)
                 old_label = POOL[k].label
                 POOL[k] = fresh(k)
@@ -436,6 +479,10 @@ def run_case(case, servertype=None, keep=False):
                     del d.objectsById[rid]
                 except KeyError:
                     pass
+        fd = L["foreign"]
+        for rid in list(fd.objectsById):
+            if rid != "Pyro.Daemon":
+                fd.objectsById.pop(rid, None)
         POOL.clear()
         if any(s[0] == "drop" or (s[0] == "register" and s[4]) for s in case["steps"]):
             gc.collect()
@@ -455,7 +502,7 @@ def _nontrivial(case):
 
 
 def _labels(case):
-    return sorted(set(["ser:" + case["ser"]] + ["op:" + s[0] for s in case["steps"]]))
+    return sorted(set(["ser:" + case["ser"]] + ["op:" + s[0] for s in case["steps"]] + (["objects-with-live-getstate"] if case.get("livestate") else [])))
 
 
 CATALOGUE = [
@@ -501,8 +548,9 @@ def run(ctx):
         if ctx.shard.get("index", 0) < 2:
             for ser in ("serpent", "json", "msgpack"):
                 for steps in CATALOGUE:
-                    case = {"ser": ser, "steps": steps}
-                    ctx.observe(case, run_case(case, st_, keep=True), True, _labels(case) + ["catalogue"])
+                    for livestate in (False, True):        # (objects whose __getstate__ hands out their live attribute dict)
+                        case = {"ser": ser, "steps": steps, "livestate": livestate}
+                        ctx.observe(case, run_case(case, st_, keep=True), True, _labels(case) + ["catalogue"])
         ctx.search(case_strategy(), lambda c: run_case(c, st_, keep=True), ctx.n(400, 2500), nontrivial=_nontrivial, labels=_labels,
                    name="registry" + st_, max_rounds=8)
     finally:
